@@ -4,9 +4,18 @@
 set -e
 cd /verif/coq
 coq_makefile -f _CoqProject -o Makefile.coq > /dev/null
-timeout 3000 make -f Makefile.coq -j14 "$@" 2>&1 | grep -v "WARNING\|^COQDEP\|^CLEAN" || true
+set +e
+timeout 3000 make -f Makefile.coq -j14 "$@" 2>&1 | grep -v "WARNING\|^COQDEP\|^CLEAN"
+rc=${PIPESTATUS[0]}
+set -e
 cd /verif/ocaml
-if [ ! -f driver ] || [ /verif/coq/Model/Driver.vo -nt driver ] || [ main.ml -nt driver ] || [ /verif/coq/Extract/Extract.v -nt driver ]; then
+need=0
+if [ ! -x driver ] || [ main.ml -nt driver ] || [ ../coq/Extract/Extract.v -nt driver ]; then need=1; fi
+for f in ../coq/Model/*.vo; do if [ "$f" -nt driver ]; then need=1; fi; done
+if [ $need = 1 ] && [ -f ../coq/Model/Driver3.vo ]; then
+  rm -f driver
   timeout 600 coqc -Q ../coq DD ../coq/Extract/Extract.v 2>&1 | grep -v "WARNING" || true
+  if [ ! model.ml -nt ../coq/Model/Driver3.vo ]; then echo "extraction failed"; exit 1; fi
   timeout 600 ocamlfind ocamlopt -O3 -w -a model.mli model.ml main.ml -o driver
 fi
+exit $rc
